@@ -266,6 +266,11 @@ def check_c04(tier):
                        "slice the peptide, header entries unique; non-trivial = non-empty FASTA")
     work = env.scratch('c04_')
     items = campaign(rep, tier, work)
+    r2 = env.rng('c04il')
+    for k in range(30 if tier == 'quick' else 600):
+        it = il_case(r2, work, k)
+        if it:
+            items.append(it)
     flat, err = run_tool(items, want_table=True)
     if err:
         rep.machinery(err)
@@ -308,6 +313,36 @@ def output_case(cfg, proteome, fasta, table):
                 table=rows, hasTable=table is not None)
 
 
+def il_case(r, work, idx):
+    """callVariant input whose variant peptides equal canonical peptides with I replaced by L (A>C at the first base of Ile codons),
+    with up to 4 miscleavages: only the global canonical pool (with its I->L images) can filter them."""
+    b = refgen.Builder(r)
+    prot = 'M' + ''.join(r.choice('IIKRAGSTLVDEQ') for _ in range(r.randrange(20, 34)))
+    cds = ''.join(r.choice([c for c in refgen.AA2CODONS[a] if not (a == 'I' and c[0] != 'A')]) for a in prot)
+    seq = refgen.rand_dna(r, 6) + cds + 'TAA' + refgen.rand_dna(r, 9)
+    t = b.add_gene(seq, r.choice([1, -1]), r.randrange(1, 3), True, 6, 6 + len(cds) + 3, (), (), prot)
+    ref = b.finish()
+    d = os.path.join(work, f'il{idx}')
+    paths = ref.write(d)
+    tseq = t.seq(ref.chroms['chr1'])
+    vs = []
+    for k, a in enumerate(prot):
+        if a == 'I' and k > 0 and r.random() < 0.7:
+            pos = 6 + 3 * k
+            gs = cvgen.gene_pos(ref, t, pos)
+            vs.append(dict(tx=t.id, gene=t.gene, start=pos, end=pos + 1, ref='A', alt='C', id=f'SNV-{gs + 1}-A-C', type='SNV',
+                           gstart=gs, gend=gs + 1))
+    if not vs:
+        return None
+    g = os.path.join(d, 'v.gvf'); cvgen.write_gvf(g, vs)
+    cfg = cvgen.rand_cfg(r); cfg['misc'] = r.choice([2, 3, 4]); cfg['max_len'] = 25
+    a = dict(paths); a.update(cvgen.cli_cfg(cfg))
+    a.update(input_path=[g], output_path=os.path.join(d, 'out.fasta'), max_variants_per_node=[-1], additional_variants_per_misc=[-1])
+    return dict(mode='il', args=a, cfg=cfg, gtf=ref.gtf_lines(), chroms=ref.chroms,
+                variants=[(v['tx'], v['start'], v['ref'], v['alt'], v['id']) for v in vs],
+                case=dict(txs=[], cfg=cvgen.spec_cfg(cfg), proteome=cvgen.proteome_record(ref)))
+
+
 def other_commands(rep, tier, work):
     """callNovelORF and callAltTranslation outputs for the hygiene check."""
     r = env.rng('c04other')
@@ -317,9 +352,19 @@ def other_commands(rep, tier, work):
         alt = i % 2 == 1
         ref = refgen.random_reference(r, n_genes=2, coding_p=0.9 if alt else 0.4, max_exons=2, aa_len=(14, 30),
                                       nc_len=(50, 110), sec_p=0.7 if alt else 0.0)
+        if not alt and i % 4 == 0:
+            # a non-coding gene that shares its exons with a coding transcript: its ORF peptides are canonical peptides and
+            # only the global canonical pool can remove them
+            b = refgen.Builder(r)
+            seq, cs, ce, secs, prot = refgen.make_coding_tx_seq(r, r.randrange(18, 30), r.randrange(3, 9), r.randrange(6, 12))
+            t = b.add_gene(seq, r.choice([1, -1]), r.randrange(1, 3), True, cs, ce, secs, (), prot)
+            b.add_shadow_gene(t)
+            ref = b.finish()
         d = os.path.join(work, f'o{i}')
         paths = ref.write(d)
         cfg = cvgen.rand_cfg(r)
+        if i % 4 == 0:
+            cfg['misc'] = r.choice([2, 3, 4])
         a = dict(paths); a.update(cvgen.cli_cfg(cfg)); a.update(output_path=os.path.join(d, 'out.fasta'))
         if alt:
             a.update(selenocysteine_termination=True, w2f_reassignment=True)
